@@ -89,8 +89,9 @@ var methodTable = []mspec{
 
 const nPlainMethods = 15
 
-// unserTag occurs in the name of every method whose result cannot be serialised (and in no other
-// name or literal the generator produces): an input that does not contain it cannot reach them.
+// unserTag occurs in the name of every method whose result cannot be serialised: an input that does
+// not contain these bytes cannot reach them (one that contains them by accident is merely run with
+// more care than it needs).
 const unserTag = "unser"
 
 func lookupMethod(name string) *mspec {
